@@ -228,3 +228,14 @@ def run(ctx):
     uses_declared = bool(iti.calls_to(r"MatchedArg::type_id$")) and ("type_id(self)" in e0 or any("type_id(self)#Some.0" in x for x in defs0))
     res.check(uses_declared, "R4.5", "declared-type-first", iti.where(), "infer_type_id answers with the argument's declared type id when there is one",
               "MatchedArg::infer_type_id no longer consults the declared type (result: %s): for an argument present without values a wrong-type get returns Ok(None) and a wrong-type remove deletes the entry" % e0[:90])
+
+    # ---- R4.5c typed access on an entry without a recorded type (groups) still checks the stored values' types
+    it = fx.body("clap_builder::parser::matches::matched_arg::MatchedArg::infer_type_id")
+    vf = [c for t in tree(it) for c in t.calls_to(r"MatchedArg::vals_flatten$")]
+    require(fx, res, "R4.5", "infer_type_id-scans-values", it, r"MatchedArg::vals_flatten$", len(vf), 1,
+            "MatchedArg::infer_type_id no longer looks at the stored values when no type is recorded (group entries): typed access with the wrong type is not rejected with Downcast — it panics in the unwrap of the downcast or removes the entry")
+    if vf:
+        ne = [c for t in tree(it) for c in t.calls_to(r"PartialEq(<[^>]*>)?>?::ne$", r"PartialEq(<[^>]*>)?>?::eq$")]
+        res.check(bool(ne) and bool([c for t in tree(it) for c in t.calls_to(r"AnyValue::type_id$")]), "R4.5", "infer_type_id-scans-values", it.where(), "a stored value of another type makes infer_type_id report that type",
+                  "infer_type_id no longer compares the stored values' types with the requested one")
+
